@@ -60,6 +60,31 @@ def _token_kinds(c: Ctx, f: Func, stmt: ast.AST) -> set[str]:
     return out
 
 
+def _start_like(c: Ctx, f: Func, name: str, at: ast.AST, start: str, kline: str, depth: int = 0) -> bool:
+    """Every definition of `name` reaching `at` is the rule's start-line parameter, a copy of such a name, or the line cursor
+    itself (`itemLine = state.line` after the nested tokenize of the previous item: the line the next item starts on)."""
+    from ..interproc import reaching
+    if depth > 3:
+        return False
+    ds = reaching(c, f).at_ast(at, name)
+    if not ds:
+        return False
+    for d in ds:
+        if d.kind == "param":
+            if name != start:
+                return False
+        elif d.kind == "assign" and d.value is not None:
+            v = d.value
+            if isinstance(v, ast.Name):
+                if not _start_like(c, f, v.id, d.stmt, start, kline, depth + 1):
+                    return False
+            elif U(v) != kline:
+                return False
+        else:
+            return False
+    return True
+
+
 def rule_map(c: Ctx) -> RuleResult:
     r = RuleResult("MAP", "a block token's map is [the rule's start line, the cursor it returns with]; placeholder ends are patched "
                           "on every path")
@@ -139,7 +164,7 @@ def rule_map(c: Ctx) -> RuleResult:
                 r.add(key, where, f.short, U(stmt)[:80], "discharged", "trivial: unreachable")
                 continue
             # ---- first element
-            first_ok = isinstance(a, ast.Name) and a.id == start
+            first_ok = isinstance(a, ast.Name) and bool(start) and _start_like(c, f, a.id, stmt, start, kline)
             first_dev = ""
             if not first_ok:
                 # accepted deviation: start + literal for a sub-part created inside the rule (table body)
